@@ -185,6 +185,10 @@ pub fn run(report: &Report, thorough: bool) -> Evidence {
             o2.numpad = other & 4 != 0;
             o2.ansi = other & 8 != 0;
             o2.smart = other & 16 != 0;
+            // every second of these contexts reaches its options through update-engine (created with every option inverted,
+            // the four helper options included), every fourth is built on a used Config object
+            o2.via_update = other % 2 == 1;
+            o2.churn = other % 4 == 2;
             let mut ctx = Ctx::new(&o2).expect("context");
             ctx.with_pre = false;
             for &c in &sweep_chars {
